@@ -36,6 +36,7 @@ import (
 	"k8s.io/apimachinery/pkg/runtime"
 	"k8s.io/apimachinery/pkg/types"
 	"k8s.io/apimachinery/pkg/util/intstr"
+	utiljson "k8s.io/apimachinery/pkg/util/json"
 	"k8s.io/apimachinery/pkg/util/validation/field"
 	"k8s.io/klog/v2"
 	utilpointer "k8s.io/utils/pointer"
@@ -242,7 +243,12 @@ func (r *customController) restoreObject(obj *unstructured.Unstructured) (modifi
 	}
 	oSpecStr := annotations[OriginalSpecAnnotation]
 	var oSpec Data
-	_ = json.Unmarshal([]byte(oSpecStr), &oSpec)
+	// decode numbers exactly (int64 / float64) as the unstructured decoder of the API machinery does;
+	// plain json.Unmarshal turns every number into a float64 and corrupts integers above 2^53
+	decoder := json.NewDecoder(strings.NewReader(oSpecStr))
+	decoder.UseNumber()
+	_ = decoder.Decode(&oSpec)
+	_ = utiljson.ConvertInterfaceNumbers(&oSpec.Spec, 0)
 	obj.Object["spec"] = oSpec.Spec
 	obj.SetAnnotations(oSpec.Annotations)
 	obj.SetLabels(oSpec.Labels)
